@@ -5,9 +5,9 @@ package drivers
 
 import (
 	"context"
-	"net"
 	"encoding/json"
 	"fmt"
+	"net"
 	"os"
 	"path/filepath"
 	"regexp"
